@@ -653,8 +653,11 @@ pub fn run_check(def: &CheckDef, tier: Tier) -> i32 {
 		"wall_s": wall_s,
 		"violations": confirmed.len(),
 	});
-	let _ = std::fs::create_dir_all("/verif/evidence");
-	let evp = format!("/verif/evidence/{}.json", def.id);
+	// VERIF_EVIDENCE_DIR: used by tools/check_seeds.sh so that runs against deliberately broken
+	// trees do not overwrite the evidence of the real tree
+	let evdir = std::env::var("VERIF_EVIDENCE_DIR").unwrap_or_else(|_| "/verif/evidence".to_string());
+	let _ = std::fs::create_dir_all(&evdir);
+	let evp = format!("{}/{}.json", evdir, def.id);
 	if let Err(e) = std::fs::write(&evp, serde_json::to_string_pretty(&ev).unwrap()) {
 		eprintln!("cannot write evidence: {}", e);
 		return 2;
